@@ -410,7 +410,11 @@ def run_case(c):
 # ----------------------------------------------------------------------------- the check
 
 def coq_runs(p):
-    return '(pl [%s]%%N)' % ';'.join('(%d,%d)' % (b, n) for b, n in p)
+    return '(pl [%s]%%N)' % ';'.join('%d' % (256 * n + b) for b, n in p)
+
+
+def pack(runs):
+    return [256 * n + b for b, n in runs]
 
 
 def coq_op(o):
@@ -420,7 +424,7 @@ def coq_op(o):
         return 'Close'
     oc = o[1]
     if oc[0] == 'a':
-        return 'Tick (Accept %d%%N)' % oc[1]
+        return 'full' if oc[1] == BIG else 'Tick (Accept %d%%N)' % oc[1]
     return 'Tick (Refuse %d%%N)' % oc[1]
 
 
@@ -432,8 +436,8 @@ class C11(Prop):
     id = 'C11'
     props_file = 'Props/C11.v'
     imports = ['Model.StreamWrite', 'Model.StreamWriteObs']
-    quick_n = 1000
-    thorough_n = 20000
+    quick_n = 450
+    thorough_n = 6000
     rule = ('real TCPServer/UNIXServer (1 or 2 accepted connections, interleaved), TCPClient/UNIXClient and File '
             'components driven in-process with a scripted send()/fd_write double and the real BasePoller bookkeeping; '
             'ops = write payload (empty ... multi-megabyte, distinct bytes) / close (also server-wide close) / writability '
@@ -458,8 +462,8 @@ class C11(Prop):
     def _payload(self, rng, ctr, big=False):
         r = rng.random()
         if big:
-            n1 = rng.randint(300000, 1400000)
-            n2 = rng.randint(1, 600000)
+            n1 = rng.randint(300000, 1100000)
+            n2 = rng.randint(1, 400000)
             ctr[0] += 2
             return [[(ctr[0]) % 251, n1], [(ctr[0] + 1) % 251, n2]]
         if r < 0.12:
@@ -522,7 +526,7 @@ class C11(Prop):
 
     def generate(self, rng, n, tier):
         cases = []
-        nbig = 2 if tier == 'quick' else 12
+        nbig = 1 if tier == 'quick' else 12
         self._large = True
         for i in range(n):
             kind = KINDS[i % len(KINDS)] if i < 10 else rng.choice(KINDS)
@@ -614,12 +618,14 @@ class C11(Prop):
                 if r['conn'] != conn:
                     continue
                 if r['was_closed']:
-                    sends = [[s[0], s[1]] for s in r['sends'] if s[1] >= 0]
-                    rs.append([sends, 0, 0, 0, 1, 0, [[[], 0]] if withint else None])
+                    # the model stops at the close: afterwards only "no byte is accepted" is compared
+                    sends = [[pack(s[0]), s[1]] for s in r['sends'] if s[1] >= 0]
+                    rs.append([sends, 2, 0])
                 else:
-                    sends = [[s[0], s[1]] for s in r['sends']]
-                    rs.append([sends, r['sockclose'], r['error'], r['disc'], r['closed'], r['writing'],
-                               [[r['int'][0], r['int'][1]]] if withint else None])
+                    sends = [[pack(s[0]), s[1]] for s in r['sends']]
+                    flags = (16 * r['sockclose'] + 8 * r['error'] + 4 * r['disc'] + 2 * r['closed'] + 1 * r['writing']
+                             + (32 * r['int'][1] if withint else 0))
+                    rs.append([sends, flags, sum(n for _, n in r['int'][0]) if withint else 0])
             out.append(rs)
         return out
 
